@@ -41,6 +41,7 @@ def strategy(tier):
         spatial_tendons=st.integers(0, 3),
         wrap=st.booleans(),
         pulley=st.booleans(),
+        multi_pulley=st.sampled_from([0.0, 0.0, 0.7]),
         unnorm=st.booleans(),
         sites=st.sampled_from([0.5, 1.0]),
         geom_menu=st.sampled_from([["sphere", "capsule", "box"], ["sphere", "cylinder", "ellipsoid", "box", "capsule"]]),
